@@ -672,24 +672,29 @@ Proof.
     unfold dtxt. cbn [fst snd rprint]. rewrite Tv. reflexivity.
 Qed.
 
-Definition par_of (k : pkind) (p : pyexpr) : option gpar :=
+Definition par_of (j f : bool) (k : pkind) (p : pyexpr) : option gpar :=
   match p with
-  | PParam n d => Some (n, k, match d with Some d' => build ctx0 d' | None => None end)
+  | PParam n d =>
+      match d with
+      | Some d' => match build (mkCtx NoParse false j f) d' with Some g => Some (n, k, Some g) | None => None end
+      | None => Some (n, k, None)
+      end
   | _ => None
   end.
 
-Lemma par_of_allk k ps gs : mapo (par_of k) ps = Some gs -> allk k gs.
+Lemma par_of_allk j f k ps gs : mapo (par_of j f k) ps = Some gs -> allk k gs.
 Proof.
   revert gs. induction ps as [|p ps IH]; simpl; intros gs H.
   - inversion H. constructor.
-  - destruct p; try discriminate. cbn [par_of] in H. destruct (mapo (par_of k) ps); [|discriminate]. inversion H; subst.
-    constructor; [reflexivity|apply IH; reflexivity].
+  - destruct (par_of j f k p) as [gp|] eqn:Ep; [|discriminate]. destruct (mapo (par_of j f k) ps); [|discriminate]. inversion H; subst.
+    constructor; [|apply IH; reflexivity].
+    destruct p; try discriminate Ep. cbn [par_of] in Ep. destruct default as [d'|]; [destruct (build _ d'); [|discriminate Ep]|]; inversion Ep; reflexivity.
 Qed.
 
 Lemma params_at k ps ijoin ifmt :
   is_variadic k = false ->
   Forall RenderP' ps -> forallb (wfk KParam) ps = true -> flat_map (gaps false false ijoin ifmt) ps = [] ->
-  exists gs, mapo (par_of k) ps = Some gs /\ map gptxt gs = map (rprint false) ps.
+  exists gs, mapo (par_of ijoin ifmt k) ps = Some gs /\ map gptxt gs = map (rprint false) ps.
 Proof.
   intros Hk H Hw. apply mapo_render. apply forallb_Forall in Hw.
   eapply Forall_impl2; [|exact H|exact Hw]. intros c [_ Hd] Hwc Hg.
@@ -697,7 +702,7 @@ Proof.
   cbn in Hwc. cbn [C03_spec.gaps] in Hg. simpl in Hd. destruct d as [dd|].
   - split_nil. simpl in Hd.
     destruct (child_at dd P_TEST _ _ Hd ltac:(assumption) eq_refl ltac:(eassumption) ltac:(eassumption)) as [gd [Bd [Td _]]].
-    eexists. cbn [par_of]. unfold ctx0. rewrite Bd. split; [reflexivity|].
+    eexists. cbn [par_of]. rewrite Bd. split; [reflexivity|].
     unfold gptxt, pkindof. cbn [fst snd rprint]. rewrite Hk, Td. reflexivity.
   - eexists. cbn [par_of]. split; [reflexivity|]. reflexivity.
 Qed.
@@ -804,7 +809,7 @@ Qed.
 Theorem render_all : forall e, RenderP' e.
 Proof.
   apply pyexpr_ind'.
-  - (* PName *) intros id. rstart. bsimpl. fin. apply render_Name.
+  - (* PName *) intros id loc. rstart. bsimpl. fin. apply render_Name.
   - (* PNum *) intros isint r. rstart. bsimpl. eexists; split; [reflexivity|split; [apply render_Str|split; [reflexivity|]]].
     cbn [int_lit_inv is_int_lit]. apply eqb_prop in Hwf. rewrite Hwf. destruct isint; reflexivity.
   - (* PConst *) intros r. rstart. bsimpl. eexists; split; [reflexivity|split; [apply render_Str|split; [reflexivity|]]].
@@ -929,7 +934,7 @@ Proof.
     destruct (params_at PO po _ _ eq_refl IHpo ltac:(assumption) ltac:(eassumption)) as [a [Ba Ta]].
     destruct (params_at PK pk _ _ eq_refl IHpk ltac:(assumption) ltac:(eassumption)) as [b [Bb' Tb']].
     destruct (params_at KO ko _ _ eq_refl IHko ltac:(assumption) ltac:(eassumption)) as [d [Bd Td]].
-    pose proof (par_of_allk _ _ _ Ba) as Ka. pose proof (par_of_allk _ _ _ Bb') as Kb. pose proof (par_of_allk _ _ _ Bd) as Kd.
+    pose proof (par_of_allk _ _ _ _ _ Ba) as Ka. pose proof (par_of_allk _ _ _ _ _ Bb') as Kb. pose proof (par_of_allk _ _ _ _ _ Bd) as Kd.
     unfold par_of, gpar in Ba, Bb', Bd. bsimpl. rewrite Ba, Bb', Bd, Bb. fin.
     change (match vp with Some n => [(n, VP, @None gexpr)] | None => [] end) with (vpl vp).
     change (match vk with Some n => [(n, VK, @None gexpr)] | None => [] end) with (vkl vk).
